@@ -319,6 +319,14 @@ def programs(depth):
         yield emit(f"    return {e}\n")
     for e in ["any([b, x > y])", "all([b, x > y])"]:
         yield emit(f"    if {e}:\n        out = 1.0\n    else:\n        out = 0.0\n    return out\n")
+    # 9. chained comparisons, every pair of operators (a chain is `a op1 b and b op2 c`; numpy cannot evaluate it on arrays, so
+    #    an untouched chain fails loudly; a rewrite must keep each link's own operator)
+    ops = ["<", "<=", ">", ">="] if depth < 3 else ["<", "<=", ">", ">=", "==", "!="]
+    for o1, o2 in itertools.product(ops, ops):
+        yield emit(f"    if 0.0 {o1} x {o2} y:\n        return 1.0\n    else:\n        return 2.0\n")
+    for o1, o2, o3 in (("<=", "<", "<="), ("<", "<=", "<"), (">=", ">", "<"), ("<", "<", "<=")):
+        yield emit(f"    out = 0.0\n    if 0.0 {o1} x {o2} y {o3} 10.0:\n        out = x\n    return out\n")
+        yield emit(f"    return x if 0.0 {o1} x {o2} y {o3} 10.0 else y\n")
     if depth >= 3:
         # else-branch holding a conditional expression; assignment from boolean operators
         for c in conds[:4]:
